@@ -157,12 +157,16 @@ pub fn build_function_parameters_refs(
         let size = type_sizes
             .get(&param.ty)
             .ok_or_else(|| ReferencesError::UnknownType(param.ty.clone()))?;
+        // The parameters must be addressable by 16-bit offsets from `fp`.
+        let next_offset = offset
+            .checked_sub(*size)
+            .ok_or_else(|| ReferencesError::InvalidFunctionDeclaration(func.clone()))?;
         if refs
             .insert(
                 param.id.clone(),
                 ReferenceValue {
                     expression: ReferenceExpression {
-                        cells: ((offset - size + 1)..(offset + 1))
+                        cells: ((next_offset + 1)..(offset + 1))
                             .map(|i| CellExpression::Deref(cell_ref!([fp + i])))
                             .collect(),
                     },
@@ -179,7 +183,7 @@ pub fn build_function_parameters_refs(
         {
             return Err(ReferencesError::InvalidFunctionDeclaration(func.clone()));
         }
-        offset -= size;
+        offset = next_offset;
     }
     Ok(refs)
 }
